@@ -1190,6 +1190,29 @@ func (conn *uTLSConn) ConnectionState() tls.ConnectionState {
 	}
 }
 
+// utlsCertificates converts the client certificates of a tls.Config to
+// their utls form.
+func utlsCertificates(certs []tls.Certificate) []utls.Certificate {
+	if len(certs) == 0 {
+		return nil
+	}
+	ucerts := make([]utls.Certificate, 0, len(certs))
+	for _, cert := range certs {
+		ucert := utls.Certificate{
+			Certificate:                 cert.Certificate,
+			PrivateKey:                  cert.PrivateKey,
+			OCSPStaple:                  cert.OCSPStaple,
+			SignedCertificateTimestamps: cert.SignedCertificateTimestamps,
+			Leaf:                        cert.Leaf,
+		}
+		for _, alg := range cert.SupportedSignatureAlgorithms {
+			ucert.SupportedSignatureAlgorithms = append(ucert.SupportedSignatureAlgorithms, utls.SignatureScheme(alg))
+		}
+		ucerts = append(ucerts, ucert)
+	}
+	return ucerts
+}
+
 // SetTLSFingerprint set the tls fingerprint for tls handshake, will use utls
 // (https://github.com/refraction-networking/utls) to perform the tls handshake,
 // which uses the specified clientHelloID to simulate the tls fingerprint.
@@ -1202,10 +1225,15 @@ func (c *Client) SetTLSFingerprint(clientHelloID utls.ClientHelloID) *Client {
 		}
 		hostname := addr[:colonPos]
 		tlsConfig := c.GetTLSClientConfig()
+		serverName := tlsConfig.ServerName
+		if serverName == "" {
+			serverName = hostname
+		}
 		utlsConfig := &utls.Config{
-			ServerName:                  hostname,
+			ServerName:                  serverName,
 			Rand:                        tlsConfig.Rand,
 			Time:                        tlsConfig.Time,
+			Certificates:                utlsCertificates(tlsConfig.Certificates),
 			RootCAs:                     tlsConfig.RootCAs,
 			NextProtos:                  tlsConfig.NextProtos,
 			ClientCAs:                   tlsConfig.ClientCAs,
